@@ -1,4 +1,5 @@
 pub mod c01;
+pub mod c07;
 pub mod c08;
 pub mod c09;
 pub mod c10;
@@ -21,6 +22,7 @@ pub fn run(id: &str, tier: &str, seed: u64) -> i32 {
         "C04" => families::c04(&mut r),
         "C05" => families::c05(&mut r),
         "C06" => families::c06(&mut r),
+        "C07" => c07::run(&mut r),
         "C08" => c08::run(&mut r),
         "C09" => c09::run(&mut r),
         "C10" => c10::run(&mut r),
